@@ -396,3 +396,17 @@ def attribute(bucket, spec, msg):
     if bucket == "suboptimal:stall-on-non-forest-graph" and "K1" in KNOWN:
         return "K1"
     return None
+
+
+def _fuzz(ctx, tier, seed):
+    """thorough-tier supplement: coverage-guided search over the same property function (DESIGN 1)"""
+    if tier != "thorough":
+        return
+    import sys
+    from vlib import fuzz
+
+    fuzz.supplement(sys.modules[__name__], ctx, seed, runs=60000, procs=8, seed_inputs=[b'\x01\x02\x03\x04\x05\x06\x07\x08\x01\x02\x03\x04\x05\x06\x07\x08\x01\x02\x03\x04\x05\x06\x07\x08\x01\x02\x03\x04\x05\x06\x07\x08\x01\x02\x03\x04\x05\x06\x07\x08\x01\x02\x03\x04\x05\x06\x07\x08\x01\x02\x03\x04\x05\x06\x07\x08\x01\x02\x03\x04\x05\x06\x07\x08', b'\x00\x01\x02\x03\x04\x05\x06\x07\x08\t\n\x0b\x0c\r\x0e\x0f\x10\x11\x12\x13\x14\x15\x16\x17\x18\x19\x1a\x1b\x1c\x1d\x1e\x1f !"#$%&\'()*+,-./0123456789:;<=>?', b'\xff\xff\xff\xff\xff\xff\xff\xff\xff\xff\xff\xff\xff\xff\xff\xff\xff\xff\xff\xff\xff\xff\xff\xff\xff\xff\xff\xff\xff\xff\xff\xff\xff\xff\xff\xff\xff\xff\xff\xff'])
+
+
+def extra(ctx, tier, seed):
+    _fuzz(ctx, tier, seed)
